@@ -27,7 +27,7 @@ def sniff(head, fmt):
             if d != ds or ds == 0:
                 return False
         us = int.from_bytes(head[5:13], "little")
-        if us != 0xFFFFFFFFFFFFFFFF and us > (1 << 38):
+        if us != 0xFFFFFFFFFFFFFFFF and us >= (1 << 38):
             return False
         return True
     if fmt == "auto":
@@ -45,18 +45,19 @@ def _raw_filters():
     opts = m.lzma_opts(preset=0)
     return m.make_filters([(m.FILTER_LZMA2, opts)])
 
-def lib_verdict(data, decoder, flags, out_cap=1 << 22):
+def lib_verdict(data, decoder, flags, out_cap=1 << 22, memlimit=None):
     """Drive a liblzma decoder the way the tools do (whole input, LZMA_FINISH, continue after
     LZMA_UNSUPPORTED_CHECK).  -> dict(final, ret, unsupFirst, unsupLater, out, trailing, consumed)"""
     m = U.lz()
     c = m.Coder()
     keep = None
+    ml = m.UINT64_MAX if memlimit is None else memlimit
     if decoder == "stream":
-        r = c.init("lzma_stream_decoder", m.UINT64_MAX, flags)
+        r = c.init("lzma_stream_decoder", ml, flags)
     elif decoder == "alone":
-        r = c.init("lzma_alone_decoder", m.UINT64_MAX)
+        r = c.init("lzma_alone_decoder", ml)
     elif decoder == "lzip":
-        r = c.init("lzma_lzip_decoder", m.UINT64_MAX, flags)
+        r = c.init("lzma_lzip_decoder", ml, flags)
     elif decoder == "raw":
         keep = _raw_filters()
         r = c.init("lzma_raw_decoder", keep)
@@ -90,11 +91,59 @@ def lib_verdict(data, decoder, flags, out_cap=1 << 22):
                 unsupLater=min(ul + max(0, uf - 1), 2), out=out, trailing=consumed < len(data), consumed=consumed)
 
 _CACHE = {}
+DET_BY_MODEL = {}       # item index -> "lzma" | "none" as predicted by spec/LzmaSniff.tla
+MEMLIMIT = 64 << 20
+
+def header_items(ctx, xz, plans, quick):
+    """.lzma files for the header cases of MCLzmaSniff: (name, bytes, fmt, meta).  The body is a real LZMA1 stream
+    encoded with the lc/lp/pb of the properties byte when that is valid."""
+    rng = ctx.rng
+    seen = set(); cases = []
+    for p in plans:
+        k = json.dumps(p, sort_keys=True)
+        if k not in seen:
+            seen.add(k); cases.append(p)
+    def val32(d): return d["hi"] * 65536 + d["lo"]
+    def is_key(p):        # 2^n and 2^n + 2^(n-1): always replayed
+        v = val32(p["dict"])
+        if p["usize"] != [65535] * 4 or p["len"] != 13 or v in (0, 0xFFFFFFFF, 0xFFFFFFFE):
+            return True                       # the boundary cases of size, length and dictionary size
+        if p["props"] != 93:
+            return p["props"] in (0, 4, 5, 36, 37, 44, 45, 224, 225, 255)
+        return v & (v - 1) == 0 or (v % 3 == 0 and (v // 3) & (v // 3 - 1) == 0)
+    if quick:
+        keyc = [p for p in cases if is_key(p)]
+        rest = [p for p in cases if not is_key(p)]
+        rng.shuffle(rest)
+        cases = keyc + rest[:120]
+    bodies = {}
+    plain = b"header domain payload \x00\x01\x02 " * 25
+    def body(props):
+        if props not in bodies:
+            pb, r = divmod(props, 45); lp, lc = divmod(r, 9)
+            if props <= 224 and lc + lp <= 4:
+                enc = U.run([xz, "-c", "-F", "lzma", "--lzma1=preset=0,lc=%d,lp=%d,pb=%d" % (lc, lp, pb)], input=plain)
+                if enc.returncode != 0:
+                    raise MachineryError("cannot encode with lc=%d lp=%d pb=%d: %r" % (lc, lp, pb, enc.stderr))
+                bodies[props] = enc.stdout[13:]
+            else:
+                bodies[props] = body(93)
+        return bodies[props]
+    items = []
+    for n, p in enumerate(cases):
+        us = b"".join(int(x).to_bytes(2, "little") for x in reversed(p["usize"]))
+        if p["usize"] == [0, 0, 0, 700]:
+            us = len(plain).to_bytes(8, "little")          # "known size": the real one
+        hdr = bytes([p["props"]]) + val32(p["dict"]).to_bytes(4, "little") + us
+        data = (hdr + body(p["props"]))[:p["len"]] if p["len"] < 13 else hdr + body(p["props"])
+        items.append(("hdr%d_p%d_d%08x.lzma" % (n, p["props"], val32(p["dict"])), data, "auto",
+                      dict(sniff=p["sniff"], dict=val32(p["dict"]))))
+    return items
 
 def oracle(tool, data, fmt, opt, key=None):
     """-> (lib record for CliDecode, decoded bytes, ret name)"""
     m = U.lz()
-    ck = (key, tool if tool in ("xzdec", "lzmadec") else "xz", fmt, bool(opt.get("ignoreCheck")), opt["singleStream"])
+    ck = (key, tool if tool in ("xzdec", "lzmadec") else "xz", fmt, bool(opt.get("ignoreCheck")), opt["singleStream"], opt.get("memlimit"))
     if key is not None and ck in _CACHE:
         return _CACHE[ck]
     if tool == "xzdec":
@@ -103,13 +152,18 @@ def oracle(tool, data, fmt, opt, key=None):
         v = lib_verdict(data, "alone", 0); det = "lzma"
     else:
         det = "raw" if fmt == "raw" else sniff(data[:8192], fmt)
+        if key in DET_BY_MODEL and fmt in ("auto", "lzma"):
+            # header cases of MCLzmaSniff: the recognition is the TLA+ model's; the mirror above must agree
+            if DET_BY_MODEL[key] != det:
+                raise MachineryError("harness mirror of is_format_lzma disagrees with spec/LzmaSniff.tla on %r" % data[:13].hex())
+            det = DET_BY_MODEL[key]
         if det == "none":
             res = (dict(det="none", final="ERR", unsupFirst=0, unsupLater=0, trailing=False, atBoundary=False), b"", "FORMAT_ERROR(cli)")
             if key is not None:
                 _CACHE[ck] = res
             return res
         flags = (m.IGNORE_CHECK if opt.get("ignoreCheck") else m.TELL_UNSUPPORTED_CHECK) | (0 if opt["singleStream"] else m.CONCATENATED)
-        v = lib_verdict(data, {"xz": "stream", "lzma": "alone", "lzip": "lzip", "raw": "raw"}[det], flags)
+        v = lib_verdict(data, {"xz": "stream", "lzma": "alone", "lzip": "lzip", "raw": "raw"}[det], flags, memlimit=opt.get("memlimit"))
     res = (dict(det=det, final=v["final"], unsupFirst=v["unsupFirst"], unsupLater=v["unsupLater"], trailing=v["trailing"],
                 atBoundary=(v["consumed"] % 8192 == 0)), v["out"], v["ret"])
     if key is not None:
@@ -257,6 +311,7 @@ def run_case(ctx, bins, wd, case, data, pred, viol):
         f.write(data)
     xa = ["-T%d" % threads] + (["-F", fmt, "--lzma2=preset=0", "-S", ".raw"] if fmt == "raw" else ["-F", fmt] if fmt != "auto" else []) \
         + (["--single-stream"] if opt["singleStream"] else []) \
+        + (["--memlimit-decompress=%d" % opt["memlimit"]] if opt.get("memlimit") else []) \
         + (["--ignore-check"] if opt.get("ignoreCheck") else []) + (["-f"] if opt["force"] else []) \
         + (["-Q"] if opt["nowarn"] else []) + ["-q"] * opt["quiet"]
     argv = {"xz_dc": [xz, "-dc"] + xa, "xz_d": [xz, "-d"] + xa, "xz_t": [xz, "-t"] + xa,
